@@ -2,7 +2,7 @@ from .. import common
 from .. import fam_pipeline as fp
 from .. import oracles as orc
 
-THEOREMS = []
+THEOREMS = ["C15.compat_same_class", "C15.compat_params", "C15.shared_write_idempotent"]
 
 
 def run(ctx):
